@@ -35,7 +35,13 @@ def rand_p(rng, depth):
         items = []
         for _ in range(rng.randint(1, 3)):
             if rng.random() < 0.3:
-                lo, hi = sorted(rng.sample("abcde", 2)) if rng.random() < 0.5 else sorted(rng.sample("0123", 2))
+                r2 = rng.random()
+                if r2 < 0.4:
+                    lo, hi = sorted(rng.sample("abcde", 2))
+                elif r2 < 0.7:
+                    lo, hi = sorted(rng.sample("0123", 2))
+                else:       # ranges whose interior contains punctuation that the implementation treats specially
+                    lo, hi = rng.choice([("Z", "a"), ("+", "/"), ("!", "%"), ("z", "~"), (" ", "0"), (":", "@"), ("#", "&"), ("W", "b")])
                 items.append([lo, hi])
             else:
                 c = rng.choice(LITS + list(".*+?()|$") if rng.random() < 0.7 else LITS)
@@ -96,7 +102,10 @@ def alphabet(p, rng):
             chars.append(x[1])
         elif x[0] == "set":
             for lo, hi in x[2]:
-                chars.extend([lo, hi])
+                inside = [chr(c) for c in range(ord(lo) + 1, ord(hi))]
+                special = [c for c in inside if c in "#&-[]^{}~\\_`"]
+                rng.shuffle(special)
+                chars.extend(special[:2] + [lo, hi] + ([inside[len(inside) // 2]] if inside else []))
         elif x[0] == "cls":
             chars.append({"d": "7", "s": " ", "w": "_"}[x[1]])
         for y in x[1:]:
